@@ -12,7 +12,6 @@ import (
 	"hash/fnv"
 	"runtime"
 	"runtime/debug"
-	"sort"
 	"strings"
 	"sync"
 	"sync/atomic"
@@ -31,6 +30,7 @@ const (
 	TsDone
 )
 
+//go:norace
 func (s TaskState) String() string {
 	return [...]string{"ready", "running", "in-op", "waiting", "done"}[s]
 }
@@ -64,6 +64,7 @@ const (
 	VSimTime          // simulated-time budget exhausted
 )
 
+//go:norace
 func (v Verdict) String() string {
 	return [...]string{"ok", "crash", "deadlock", "step-budget", "simtime-budget"}[v]
 }
@@ -82,7 +83,7 @@ type Sim struct {
 	cfg     Config
 	S       *Choices
 	tasks   []*Task
-	byGoid  map[uint64]*Task
+	byGoid  goidTab
 	cur     *Task
 	last    *Task
 	kick    chan struct{}
@@ -108,9 +109,9 @@ type Sim struct {
 	logN    int
 	logHash uint64
 
-	Counters map[string]int64
-	mapReg   map[uintptr]*mapOrder
-	Vals     map[string]interface{} // free for seams/harness (per-run singletons)
+	counters counterTab
+	mapReg   []*mapOrder
+	vals     valTab // free for seams/harness (per-run singletons)
 	// LogNorm, if set, rewrites every log line before it is hashed and stored
 	// (used to replace process-dependent id text by per-run canonical names).
 	LogNorm func(string) string
@@ -123,8 +124,10 @@ var simGen atomic.Uint64
 var WaitQuiescent func()
 
 // Active returns the running simulation or nil.
+//go:norace
 func Active() *Sim { return active.Load() }
 
+//go:norace
 func goid() uint64 {
 	var buf [40]byte
 	n := runtime.Stack(buf[:], false)
@@ -142,41 +145,48 @@ func goid() uint64 {
 
 // Current returns the calling goroutine's task, or nil when no simulation is
 // active or the caller is not a task of it.
+//go:norace
 func Current() *Task {
 	s := active.Load()
 	if s == nil {
 		return nil
 	}
 	id := goid()
-	s.mu.Lock()
-	t := s.byGoid[id]
-	s.mu.Unlock()
+	s.lock()
+	t := s.byGoid.get(id)
+	s.unlock()
 	return t
 }
 
 // Sim returns the simulation the task belongs to.
+//go:norace
 func (t *Task) Sim() *Sim { return t.sim }
 
 // Gen identifies the run (used by seams to discard state of earlier runs).
+//go:norace
 func (s *Sim) Gen() uint64 { return s.gen }
 
 // Now is the simulated time elapsed since the run started.
+//go:norace
 func (s *Sim) Now() time.Duration { return time.Since(s.start) }
 
 // Count adds to a named counter (evidence).
-func (s *Sim) Count(name string, d int64) { s.Counters[name] += d }
+//go:norace
+func (s *Sim) Count(name string, d int64) { s.counters.add(name, d) }
 
 // Count adds to a counter of the active simulation, if any.
+//go:norace
 func Count(name string, d int64) {
 	if s := active.Load(); s != nil {
 		if t := Current(); t != nil {
-			s.Counters[name] += d
+			s.counters.add(name, d)
 		}
 	}
 }
 
 // Logf appends a line to the run's event log.  Only the token holder or the
 // scheduler may call it.  It never draws a choice and never reads a real clock.
+//go:norace
 func (s *Sim) Logf(format string, a ...interface{}) {
 	line := fmt.Sprintf("%6d %s", s.Steps, fmt.Sprintf(format, a...))
 	if s.LogNorm != nil {
@@ -197,23 +207,35 @@ func (s *Sim) Logf(format string, a ...interface{}) {
 }
 
 // Logf logs to the active simulation when called from one of its tasks.
+//go:norace
 func Logf(format string, a ...interface{}) {
 	if t := Current(); t != nil {
 		t.sim.Logf(format, a...)
 	}
 }
 
+//go:norace
+func (s *Sim) lock()   { raceOff(); s.mu.Lock() }
+//go:norace
+func (s *Sim) unlock() { s.mu.Unlock(); raceOn() }
+
+//go:norace
 func (s *Sim) kickSched() {
+	raceOff()
 	select {
 	case s.kick <- struct{}{}:
 	default:
 	}
+	raceOn()
 }
 
+//go:norace
 func parkForever() { select {} }
 
 // park gives the token up (state must already be set) and waits for a grant.
+//go:norace
 func (t *Task) park() {
+	raceOff()
 	if t.sim.stopped.Load() {
 		parkForever()
 	}
@@ -221,31 +243,34 @@ func (t *Task) park() {
 	if t.sim.stopped.Load() {
 		parkForever()
 	}
+	raceOn()
 }
 
 // Yield is a scheduling point: any ready task may run next.
+//go:norace
 func (t *Task) Yield(label string) {
 	s := t.sim
-	s.mu.Lock()
+	s.lock()
 	t.state = TsReady
 	t.label = label
-	s.mu.Unlock()
+	s.unlock()
 	t.park()
 }
 
 // Block parks the task until another task (or a timer) calls MakeReady.
+//go:norace
 func (t *Task) Block(label string) {
 	s := t.sim
-	s.mu.Lock()
+	s.lock()
 	t.state = TsWaiting
 	t.label = label
-	s.mu.Unlock()
+	s.unlock()
 	t.park()
 }
 
 // BlockUntil is Block with a deadline (zero = none); reports a timeout.
+//go:norace
 func (t *Task) BlockUntil(label string, deadline time.Time) (timedOut bool) {
-	s := t.sim
 	var tm *time.Timer
 	t.wgen++
 	gen := t.wgen
@@ -255,15 +280,7 @@ func (t *Task) BlockUntil(label string, deadline time.Time) (timedOut bool) {
 		if d <= 0 {
 			return true
 		}
-		tm = time.AfterFunc(d, func() {
-			s.mu.Lock()
-			if t.state == TsWaiting && t.wgen == gen {
-				t.state = TsReady
-				t.tmo = true
-			}
-			s.mu.Unlock()
-			s.kickSched()
-		})
+		tm = time.AfterFunc(d, func() { t.onTimeout(gen) })
 	}
 	t.Block(label)
 	if tm != nil {
@@ -273,18 +290,32 @@ func (t *Task) BlockUntil(label string, deadline time.Time) (timedOut bool) {
 	return t.tmo
 }
 
+//go:norace
+func (t *Task) onTimeout(gen uint64) {
+	s := t.sim
+	s.lock()
+	if t.state == TsWaiting && t.wgen == gen {
+		t.state = TsReady
+		t.tmo = true
+	}
+	s.unlock()
+	s.kickSched()
+}
+
 // MakeReady moves a waiting task to the ready set.
+//go:norace
 func (s *Sim) MakeReady(t *Task) {
-	s.mu.Lock()
+	s.lock()
 	if t.state == TsWaiting {
 		t.state = TsReady
 	}
-	s.mu.Unlock()
+	s.unlock()
 	s.kickSched()
 }
 
 // Pre is the scheduling point before a real, possibly blocking Go operation.
 // It returns the calling task (nil outside a simulation) for Post.
+//go:norace
 func Pre(label string) *Task {
 	t := Current()
 	if t == nil {
@@ -296,18 +327,19 @@ func Pre(label string) *Task {
 
 // Post re-acquires the token after a real operation if it was revoked while
 // the task was blocked inside it.
+//go:norace
 func Post(t *Task) {
 	if t == nil {
 		return
 	}
 	s := t.sim
-	s.mu.Lock()
+	s.lock()
 	if s.cur == t && t.state == TsRunning {
-		s.mu.Unlock()
+		s.unlock()
 		return
 	}
 	t.state = TsReady
-	s.mu.Unlock()
+	s.unlock()
 	if s.stopped.Load() {
 		parkForever()
 	}
@@ -316,6 +348,7 @@ func Post(t *Task) {
 }
 
 // Go starts f as a new task.  Outside a simulation it is a plain go statement.
+//go:norace
 func Go(name string, f func()) *Task {
 	cur := Current()
 	if cur == nil {
@@ -325,80 +358,91 @@ func Go(name string, f func()) *Task {
 	return cur.sim.spawn(name, f)
 }
 
+//go:norace
 func (s *Sim) spawn(name string, f func()) *Task {
-	s.mu.Lock()
+	s.lock()
 	t := &Task{ID: len(s.tasks), Name: name, sim: s, wake: make(chan struct{}, 1), state: TsReady, label: "start"}
 	if !s.S.IsReplay() {
 		t.prio = s.S.Rand(1 << 20)
 	}
 	s.tasks = append(s.tasks, t)
-	s.mu.Unlock()
-	raceFork(t)
-	go func() {
-		id := goid()
-		s.mu.Lock()
-		s.byGoid[id] = t
-		s.mu.Unlock()
-		t.park()
-		raceTaskStart(t)
-		defer func() {
-			r := recover()
-			var stk string
-			if r != nil {
-				stk = string(debug.Stack())
-			}
-			s.mu.Lock()
-			if r != nil && s.verdict == VOK {
-				s.verdict = VCrash
-				s.crashMsg = fmt.Sprint(r)
-				s.crashTask = t.Name
-				s.crashStk = stk
-			}
-			t.state = TsDone
-			delete(s.byGoid, id)
-			for _, j := range t.join {
-				if j.state == TsWaiting {
-					j.state = TsReady
-				}
-			}
-			t.join = nil
-			s.mu.Unlock()
-		}()
-		f()
-	}()
+	s.unlock()
+	go s.taskMain(t, f)
 	return t
 }
 
+//go:norace
+func (s *Sim) taskMain(t *Task, f func()) {
+	id := goid()
+	s.lock()
+	s.byGoid.set(id, t)
+	s.unlock()
+	t.park()
+	defer s.taskExit(t, id)
+	f()
+}
+
+//go:norace
+func (s *Sim) taskExit(t *Task, id uint64) {
+	r := recover()
+	var stk string
+	if r != nil {
+		stk = string(debug.Stack())
+	}
+	// everything this task did happens-before whoever joins it
+	RaceRelease(&t.RaceCtx)
+	s.lock()
+	if r != nil && s.verdict == VOK {
+		s.verdict = VCrash
+		s.crashMsg = fmt.Sprint(r)
+		s.crashTask = t.Name
+		s.crashStk = stk
+	}
+	t.state = TsDone
+	s.byGoid.del(id)
+	for _, j := range t.join {
+		if j.state == TsWaiting {
+			j.state = TsReady
+		}
+	}
+	t.join = nil
+	s.unlock()
+}
+
 // Join blocks the calling task until t has ended.
+//go:norace
 func (t *Task) Join(other *Task) {
 	s := t.sim
 	for {
-		s.mu.Lock()
+		s.lock()
 		if other.state == TsDone {
-			s.mu.Unlock()
+			s.unlock()
+			RaceAcquire(&other.RaceCtx)
 			return
 		}
 		other.join = append(other.join, t)
 		t.state = TsWaiting
 		t.label = "join " + other.Name
-		s.mu.Unlock()
+		s.unlock()
 		t.park()
 	}
 }
 
 // JoinTimeout waits for other to end, at most d of simulated time; reports
 // whether it ended.
+//go:norace
 func (t *Task) JoinTimeout(other *Task, d time.Duration) bool {
 	s := t.sim
 	deadline := time.Now().Add(d)
 	for {
-		s.mu.Lock()
+		s.lock()
 		if other.state == TsDone {
-			s.mu.Unlock()
+			s.unlock()
+			RaceAcquire(&other.RaceCtx)
 			return true
 		}
 		other.join = append(other.join, t)
-		s.mu.Unlock()
+		s.unlock()
 		if !time.Now().Before(deadline) {
 			return false
 		}
@@ -407,14 +451,16 @@ func (t *Task) JoinTimeout(other *Task, d time.Duration) bool {
 }
 
 // Done reports whether the task has ended.
+//go:norace
 func (t *Task) Done() bool {
-	t.sim.mu.Lock()
-	defer t.sim.mu.Unlock()
+	t.sim.lock()
+	defer t.sim.unlock()
 	return t.state == TsDone
 }
 
 // Quiesce parks the calling task until no other task is ready to run: every
 // other task is finished, waiting, or blocked on a timer that has not fired.
+//go:norace
 func (t *Task) Quiesce() {
 	t.low = true
 	t.Yield("quiesce")
@@ -422,6 +468,7 @@ func (t *Task) Quiesce() {
 }
 
 // Sleep is time.Sleep as a scheduling point.
+//go:norace
 func Sleep(d time.Duration) {
 	t := Pre("sleep")
 	time.Sleep(d)
@@ -452,6 +499,7 @@ var jumpTable = []time.Duration{
 }
 
 // New prepares a simulation (call inside the bubble) without starting it.
+//go:norace
 func New(cfg Config, S *Choices) *Sim {
 	if cfg.MaxSteps == 0 {
 		cfg.MaxSteps = 200000
@@ -463,9 +511,8 @@ func New(cfg Config, S *Choices) *Sim {
 		cfg.LogCap = 4000
 	}
 	s := &Sim{
-		cfg: cfg, S: S, byGoid: map[uint64]*Task{}, kick: make(chan struct{}, 1),
-		gen: simGen.Add(1), start: time.Now(), Counters: map[string]int64{},
-		mapReg: map[uintptr]*mapOrder{}, Vals: map[string]interface{}{},
+		cfg: cfg, S: S, kick: make(chan struct{}, 1),
+		gen: simGen.Add(1), start: time.Now(),
 	}
 	// Per-run scheduling policy (swarm).  Consumed identically in replay.
 	s.policy = S.Choose(3)
@@ -487,6 +534,7 @@ func New(cfg Config, S *Choices) *Sim {
 // has finished, a task crashed, or a budget ran out.  It must be called from
 // the bubble's root goroutine.  On a deadlock it never returns (synctest
 // panics in the goroutine that called synctest.Test); use Snapshot then.
+//go:norace
 func (s *Sim) Run(mainFn func(t *Task)) *Result {
 	active.Store(s)
 	var mt *Task
@@ -494,15 +542,17 @@ func (s *Sim) Run(mainFn func(t *Task)) *Result {
 		mainFn(mt)
 		s.mainDone = true
 	})
+	raceOff() // from here on the scheduler's own synchronisation is invisible to the race detector
+	defer raceOn()
 	for {
 		WaitQuiescent()
-		s.mu.Lock()
+		s.lock()
 		if s.cur != nil && s.cur.state == TsRunning {
 			s.cur.state = TsInOp
 		}
 		s.cur = nil
 		if s.mainDone || s.verdict != VOK {
-			s.mu.Unlock()
+			s.unlock()
 			break
 		}
 		var ready, low []*Task
@@ -519,7 +569,7 @@ func (s *Sim) Run(mainFn func(t *Task)) *Result {
 			ready = low
 		}
 		if len(ready) == 0 {
-			s.mu.Unlock()
+			s.unlock()
 			if time.Since(s.start) > s.cfg.MaxSimTime {
 				s.verdict = VSimTime
 				break
@@ -530,30 +580,29 @@ func (s *Sim) Run(mainFn func(t *Task)) *Result {
 		s.Steps++
 		if s.Steps > s.cfg.MaxSteps {
 			s.verdict = VSteps
-			s.mu.Unlock()
+			s.unlock()
 			break
 		}
 		if time.Since(s.start) > s.cfg.MaxSimTime {
 			s.verdict = VSimTime
-			s.mu.Unlock()
+			s.unlock()
 			break
 		}
-		s.mu.Unlock()
+		s.unlock()
 		// Optional clock jump: the whole process stalls for d of simulated time.
 		if s.jumpDen > 0 && s.S.Choose(s.jumpDen) == 1 {
 			d := jumpTable[s.S.Choose(len(jumpTable))]
-			s.Counters["fault.clock_jump"]++
+			s.counters.add("fault.clock_jump", 1)
 			s.Logf("clock jump %v", d)
 			time.Sleep(d)
 			continue // re-collect: timers may have made more tasks ready
 		}
 		t := s.pick(ready)
-		s.mu.Lock()
+		s.lock()
 		t.state = TsRunning
 		s.cur = t
 		s.last = t
-		s.mu.Unlock()
-		raceGrant(t)
+		s.unlock()
 		t.wake <- struct{}{}
 	}
 	s.stopped.Store(true)
@@ -561,52 +610,66 @@ func (s *Sim) Run(mainFn func(t *Task)) *Result {
 	return s.Snapshot()
 }
 
+//go:norace
 func (s *Sim) pick(ready []*Task) *Task {
 	if len(ready) == 1 {
 		return ready[0]
 	}
-	// canonical order: last-run task first, then by id
-	sort.Slice(ready, func(i, j int) bool {
-		if (ready[i] == s.last) != (ready[j] == s.last) {
-			return ready[i] == s.last
+	// canonical order: last-run task first, then by id (insertion sort: no closure)
+	for i := 1; i < len(ready); i++ {
+		for j := i; j > 0 && s.before(ready[j], ready[j-1]); j-- {
+			ready[j], ready[j-1] = ready[j-1], ready[j]
 		}
-		return ready[i].ID < ready[j].ID
-	})
-	k := s.S.ChooseWith(len(ready), func(c *Choices) int {
-		switch s.policy {
-		case 1: // sticky
-			if ready[0] == s.last && c.Rand(100) < s.stickyP {
-				return 0
-			}
-			return c.Rand(len(ready))
-		case 2: // PCT-style priorities
-			if s.pctCP[s.Steps] && s.last != nil {
-				s.last.prio = -s.Steps
-			}
-			best := 0
-			for i, t := range ready {
-				if t.prio > ready[best].prio {
-					best = i
-				}
-			}
-			return best
-		}
-		return c.Rand(len(ready))
-	})
+	}
+	k := s.S.ChooseWith(len(ready), func(c *Choices) int { return s.policyPick(ready) })
 	s.nChoice2++
 	s.schedH = s.schedH*1099511628211 ^ uint64(ready[k].ID+1)
 	return ready[k]
 }
 
+//go:norace
+func (s *Sim) before(a, b *Task) bool {
+	if (a == s.last) != (b == s.last) {
+		return a == s.last
+	}
+	return a.ID < b.ID
+}
+
+// policyPick is the generate-mode scheduling policy.
+//go:norace
+func (s *Sim) policyPick(ready []*Task) int {
+	c := s.S
+	switch s.policy {
+	case 1: // sticky
+		if ready[0] == s.last && c.Rand(100) < s.stickyP {
+			return 0
+		}
+		return c.Rand(len(ready))
+	case 2: // PCT-style priorities
+		if s.pctCP[s.Steps] && s.last != nil {
+			s.last.prio = -s.Steps
+		}
+		best := 0
+		for i, t := range ready {
+			if t.prio > ready[best].prio {
+				best = i
+			}
+		}
+		return best
+	}
+	return c.Rand(len(ready))
+}
+
 // Snapshot builds the result from the current state; safe once every task is
 // blocked (after Run returned or after synctest reported a deadlock).
+//go:norace
 func (s *Sim) Snapshot() *Result {
-	s.mu.Lock()
-	defer s.mu.Unlock()
+	s.lock()
+	defer s.unlock()
 	r := &Result{
 		Verdict: s.verdict, CrashMsg: s.crashMsg, CrashTask: s.crashTask, CrashStk: s.crashStk,
 		Steps: s.Steps, SimTime: time.Since(s.start), Log: s.log, LogLines: s.logN,
-		LogHash: s.logHash, SchedHash: s.schedH, Choices2: s.nChoice2, Counters: s.Counters,
+		LogHash: s.logHash, SchedHash: s.schedH, Choices2: s.nChoice2, Counters: s.counters.toMap(),
 		S: s.S.Rec,
 	}
 	for _, t := range s.tasks {
@@ -618,26 +681,128 @@ func (s *Sim) Snapshot() *Result {
 }
 
 // MarkDeadlock records that synctest found every goroutine blocked.
+//go:norace
 func (s *Sim) MarkDeadlock() {
-	s.mu.Lock()
+	s.lock()
 	if s.verdict == VOK && !s.mainDone {
 		s.verdict = VDeadlock
 	}
-	s.mu.Unlock()
+	s.unlock()
 	s.stopped.Store(true)
 	active.CompareAndSwap(s, nil)
 }
 
 // MainDone reports whether the main task returned.
+//go:norace
 func (s *Sim) MainDone() bool { return s.mainDone }
 
 // TaskDump lists all tasks with their states (diagnostics).
+//go:norace
 func (s *Sim) TaskDump() string {
-	s.mu.Lock()
-	defer s.mu.Unlock()
+	s.lock()
+	defer s.unlock()
 	var b strings.Builder
 	for _, t := range s.tasks {
 		fmt.Fprintf(&b, "%d %s %s (%s)\n", t.ID, t.Name, t.state, t.label)
 	}
 	return b.String()
+}
+
+// ---- small tables instead of Go maps: the runtime's map functions report to
+// the race detector on behalf of their caller even inside //go:norace code, and
+// simulator state is deliberately invisible to it ----
+
+type goidTab struct {
+	ids []uint64
+	ts  []*Task
+}
+
+//go:norace
+func (g *goidTab) get(id uint64) *Task {
+	for i, x := range g.ids {
+		if x == id {
+			return g.ts[i]
+		}
+	}
+	return nil
+}
+
+//go:norace
+func (g *goidTab) set(id uint64, t *Task) {
+	g.ids = append(g.ids, id)
+	g.ts = append(g.ts, t)
+}
+
+//go:norace
+func (g *goidTab) del(id uint64) {
+	// element-wise: copy()/append(a, b...) go through runtime.slicecopy, which reports to the
+	// race detector on the caller's behalf
+	for i, x := range g.ids {
+		if x == id {
+			for j := i; j+1 < len(g.ids); j++ {
+				g.ids[j] = g.ids[j+1]
+				g.ts[j] = g.ts[j+1]
+			}
+			g.ids = g.ids[:len(g.ids)-1]
+			g.ts = g.ts[:len(g.ts)-1]
+			return
+		}
+	}
+}
+
+type counterTab struct {
+	keys []string
+	vals []int64
+}
+
+//go:norace
+func (c *counterTab) add(k string, d int64) {
+	for i, x := range c.keys {
+		if x == k {
+			c.vals[i] += d
+			return
+		}
+	}
+	c.keys = append(c.keys, k)
+	c.vals = append(c.vals, d)
+}
+
+//go:norace
+func (c *counterTab) toMap() map[string]int64 {
+	m := make(map[string]int64, len(c.keys))
+	for i, k := range c.keys {
+		m[k] = c.vals[i]
+	}
+	return m
+}
+
+type valTab struct {
+	keys []string
+	vals []interface{}
+}
+
+// SetVal stores a per-run singleton (seams, harness).
+//
+//go:norace
+func (s *Sim) SetVal(k string, v interface{}) {
+	for i, x := range s.vals.keys {
+		if x == k {
+			s.vals.vals[i] = v
+			return
+		}
+	}
+	s.vals.keys = append(s.vals.keys, k)
+	s.vals.vals = append(s.vals.vals, v)
+}
+
+// Val returns a per-run singleton or nil.
+//
+//go:norace
+func (s *Sim) Val(k string) interface{} {
+	for i, x := range s.vals.keys {
+		if x == k {
+			return s.vals.vals[i]
+		}
+	}
+	return nil
 }
